@@ -156,8 +156,8 @@ def c01_7(ctx):
     order = _der_fields(mod, fn)
     fields = [o[0] for o in order]
     if fields != ["r", "s"]:
-        if sorted(fields) == ["r", "s"]:
-            out.append(ctx.bad("pecc:Signature.der", "encoder emits the integers in order %s, DER ECDSA-Sig-Value is r then s" % fields, fn, mod, key="der-order"))
+        if fields and set(fields) <= {"r", "s"}:
+            out.append(ctx.bad("pecc:Signature.der", "encoder emits the integers %s, DER ECDSA-Sig-Value is r then s" % fields, fn, mod, key="der-order"))
         else:
             raise AnalysisError("DER encoder: int_to_big_endian sites not recognised: %s" % fields)
     else:
